@@ -277,7 +277,7 @@ pub struct EnfCase {
 
 pub struct Enforcement;
 
-const BREAKAGES: [&str; 9] = [
+const BREAKAGES: [&str; 11] = [
     "none",
     "non-tight",
     "private-recursion-through-negation",
@@ -287,6 +287,8 @@ const BREAKAGES: [&str; 9] = [
     "ug-assumption-with-non-input",
     "spec-assumption-with-output",
     "placeholder-two-sorts",
+    "private-recursion-mixed-signs",
+    "private-recursion-positive",
 ];
 
 fn unary(p: &str, t: asp::Term) -> asp::Atom {
@@ -312,7 +314,7 @@ impl Check for Enforcement {
         tier.pick(40_000, 800_000)
     }
     fn strategy(&self, _tier: Tier) -> BoxedStrategy<EnfCase> {
-        (gt::choices(160), 0u8..9, any::<bool>(), any::<bool>())
+        (gt::choices(160), 0u8..11, any::<bool>(), any::<bool>())
             .prop_map(|(choices, breakage, on_left, bypass)| EnfCase {
                 choices,
                 breakage,
@@ -322,7 +324,7 @@ impl Check for Enforcement {
             .boxed()
     }
     fn rule(&self) -> String {
-        "external-equivalence task that is valid by construction, with exactly one precondition broken on purpose (or none: control), on the left or right program, with and without --bypass-tightness; oracle: a broken task yields an error and no problems, except a merely non-tight program under --bypass-tightness, which yields problems; the control yields problems; non-trivial = a precondition was broken; distinct by task + breakage; labels = breakage kind and the error variant reported".into()
+        "external-equivalence task that is valid by construction, with exactly one precondition broken on purpose (or none: control), on the left or right program, with and without --bypass-tightness; oracle: a broken task (non-tight; private recursion through negation, through a mixed-sign cycle or through a positive cycle; private choice head; input in a head; input/output overlap; bad assumptions; placeholder at two sorts) yields an error and no problems, except a merely non-tight program under --bypass-tightness, which yields problems; the control yields problems; non-trivial = a precondition was broken; distinct by task + breakage; labels = breakage kind and the error variant reported".into()
     }
     fn run(&self, case: &EnfCase) -> Outcome {
         let mut c = Chooser::new(case.choices.clone());
@@ -355,6 +357,35 @@ impl Check for Enforcement {
                                 atom: unary(&private_of_side, var("X")),
                             }),
                         ],
+                    },
+                }),
+                "private-recursion-mixed-signs" => {
+                    // a cycle among two private predicates with one positive and one negated edge
+                    // (the program stays tight): mx(X) :- in(X), priv(X).  priv(X) :- in(X), not mx(X).
+                    program.rules.push(asp::Rule {
+                        head: asp::Head::Basic(unary("mx", var("X"))),
+                        body: asp::Body {
+                            formulas: vec![positive(unary(&input, var("X"))), positive(unary(&private_of_side, var("X")))],
+                        },
+                    });
+                    program.rules.push(asp::Rule {
+                        head: asp::Head::Basic(unary(&private_of_side, var("X"))),
+                        body: asp::Body {
+                            formulas: vec![
+                                positive(unary(&input, var("X"))),
+                                asp::AtomicFormula::Literal(asp::Literal {
+                                    sign: if case.bypass { asp::Sign::DoubleNegation } else { asp::Sign::Negation },
+                                    atom: unary("mx", var("X")),
+                                }),
+                            ],
+                        },
+                    });
+                }
+                "private-recursion-positive" => program.rules.push(asp::Rule {
+                    // also non-tight: refused for one reason or the other, with and without the bypass
+                    head: asp::Head::Basic(unary("mx", var("X"))),
+                    body: asp::Body {
+                        formulas: vec![positive(unary("mx", var("X"))), positive(unary(&input, var("X")))],
                     },
                 }),
                 "private-choice-head" => program.rules.push(asp::Rule {
